@@ -33,7 +33,7 @@ def model_check(c, label, cfg_text, liveness, timeout, actions):
     with open(cfg, "w") as f:
         f.write(cfg_text + ("SPECIFICATION Spec\nPROPERTY Completes\n" if liveness else "INIT Init\nNEXT Next\n")
                 + "".join("INVARIANT %s\n" % i for i in INVARIANTS))
-    m = vlib.run_tlc("conc/DataLoader.tla", cfg, workers=8, coverage=True, timeout=timeout, xmx="16g")
+    m = vlib.run_tlc("conc/DataLoader.tla", cfg, workers=4, coverage=True, timeout=timeout, xmx="16g")
     if m.invariant_violated:
         raise vlib.ToolError("design-level failure in DataLoader.tla (%s): %s" % (label, m.invariant_violated))
     for act in actions:
@@ -84,23 +84,23 @@ def body(c):
                     consts([1, 2, 3], 3, errs=False, cancels=False, **all_cfg), False, 3000, acts)
         model_check(c, "3 requests over 3 keys, batch 2, lru1, pre-fed cache, Ok/Err, cancellation: invariants",
                     consts([1, 2, 3], 3, **dict(all_cfg, mbs=[2], modes=["lru1"], prefeds=[[1]])), False, 3000, ACTIONS)
-        model_check(c, "3 requests over 2 keys, batch 1-3, all cache modes, pre-fed cache, Ok/Err, cancellation: invariants + liveness",
-                    consts([1, 2], 3, **all_cfg), True, 3000, ACTIONS)
+        model_check(c, "3 requests over 2 keys, batch 1-3, all cache modes, Ok/Err, cancellation: invariants + liveness",
+                    consts([1, 2], 3, **dict(all_cfg, prefeds=[[]])), True, 3000, ACTIONS)
 
     # ---- mode G ---------------------------------------------------------------------------------------------------------
     rng = random.Random(c.seed)
     bfs = generate(c, "BFS: every behaviour of 2 requests over 2 keys", consts([1, 2], 2, **(dict(all_cfg, prefeds=[[1]]) if c.quick else all_cfg)),
-                   workers=8)
+                   workers=4)
     n_bfs_all = len(bfs)
-    cap = 2500 if c.quick else 40000
+    cap = 2500 if c.quick else 20000
     exhaustive = len(bfs) <= cap
     if not exhaustive:
         bfs = sorted(rng.sample(bfs, cap))
     sim3 = generate(c, "simulation: 3 requests over 3 keys", consts([1, 2, 3], 3, **all_cfg), workers=1,
-                    simulate=400 if c.quick else 6000, depth=40, seed=c.seed)
+                    simulate=400 if c.quick else 4000, depth=40, seed=c.seed)
     sim6 = generate(c, "simulation: 6 requests over 5 keys, batch 1-4, LRU(3), keys unknown to the loader",
                     consts([1, 2, 3, 4, 5], 6, mbs=[1, 2, 3, 4], modes=MODES + ["lru3"], prefeds=[[], [1, 2]], holesets=[[], [5]]),
-                    workers=1, simulate=120 if c.quick else 6000, depth=60, seed=c.seed)
+                    workers=1, simulate=120 if c.quick else 1200, depth=60, seed=c.seed)
     cases = []
     for src, lst in (("bfs", bfs), ("sim3", sim3), ("sim6", sim6)):
         for s in lst:
@@ -147,7 +147,7 @@ def body(c):
     vlib.write_ndjson(c.path("trace_v.ndjson"), neg + traces)
 
     # ---- mode V: verdict by the property monitor ---------------------------------------------------------------------
-    v = vlib.run_tlc("conc/DataLoaderTrace.tla", "conc/DataLoaderTrace.cfg", env={"TRACE": c.path("trace_v.ndjson")}, workers=8,
+    v = vlib.run_tlc("conc/DataLoaderTrace.tla", "conc/DataLoaderTrace.cfg", env={"TRACE": c.path("trace_v.ndjson")}, workers=4,
                      timeout=3000, keep_lines=50, xmx="12g")
     verdicts = {t[1]: (t[2], t[3]) for t in v.tagged("VERDICT")}
     if len(verdicts) != len(traces) + 3:
@@ -176,7 +176,7 @@ def body(c):
     c.cov["traces_validated_against_impl"] = len(traces)
 
     # ---- drift: the model's own actions must accept what the implementation did (never a verdict) ------------------------
-    dn = 1500 if c.quick else 12000
+    dn = 1500 if c.quick else 6000
     dsel = [neg[0]] + (traces if len(traces) <= dn else sorted(rng.sample(traces, dn), key=lambda t: t["id"]))
     vlib.write_ndjson(c.path("trace_d.ndjson"), dsel)
     d = vlib.run_tlc("conc/DataLoaderTrace.tla", "conc/DataLoaderDrift.cfg", env={"TRACE": c.path("trace_d.ndjson")}, workers=1,
